@@ -341,6 +341,14 @@ func IteInt64(c bool, a, b int64) int64 {
 	return b
 }
 
+// IteStr is c ? a : b over ordinal strings, without a fork in the engine.
+func IteStr(c bool, a, b string) string {
+	if c {
+		return a
+	}
+	return b
+}
+
 // NoLeak asks the run to check that no goroutine outlives the harness.
 func NoLeak() { cur.noLeak = true }
 
